@@ -93,7 +93,7 @@ def stage_stress(pid, tier, seed, d, binp, st, ctx):
     mix = st.get("mix", "mixed")
     tr = os.path.join(d, "stress_%s.ndjson" % st["name"])
     p = ctx["run"]([binp, "stress", "--iters", str(iters), "--seed", str(seed), "--par", "16", "--mix", mix, "--out", tr],
-                   cwd=d, timeout=3600)
+                   cwd=d, timeout=900 if tier == "quick" else 7200)
     files, nruns, nev = ctx["split_trace"](tr, d, "stress_" + st["name"], ctx["NCPU"])
     bads = ctx["trace_monitor"](d, files)
     json.dump(bads, open(os.path.join(d, "bads_stress_%s.json" % st["name"]), "w"))
